@@ -184,7 +184,7 @@ func enumerateReader(t *rapid.T, r *core.SplitMix, surface string, doc []byte, i
 					// faults must also meet the refill/realloc paths of the scan buffer
 					verifhook.SetCSVBufCap([]int{0, 0, 1, 2, 3, 8, 16}[r.Intn(7)])
 				}
-				fr, pan := read(rd)
+				fr, pan := read(rd.As(r.Intn(3))) // plain | io.WriterTo | io.ByteReader
 				verifhook.SetCSVBufCap(0)
 				core.Steps(rd.Reads)
 				note(surface, pos, shape, k.name, rd.Fired, inputSig)
